@@ -45,6 +45,7 @@ STEPD_MENU = [(0.05, 0.003), (0.5, 0.25), (0.25, 0.05), (1.0, 0.5), (0.05, 0.0),
 # ---------------------------------------------------------------- critical values for STEPD
 _crit_cache = {}
 Z_OF_ALPHA = {}      # alpha chosen as the p-value of an attained statistic z  ->  that z
+FRAGILE = set()      # (kind, cfg) whose thresholds sit on an attained (irrational) statistic: ties there depend on rounding
 
 
 def pvalue(z):
@@ -164,7 +165,12 @@ def first_diff(kind, cfg, itr, mtr):
             if kind == "stepd" and stat == stat:
                 p = float(pvalue(stat))
                 m = min(m, relgap(p, cfg[1]), relgap(p, cfg[2]))
-            if (io[2:4] == mo[2:4]) and 0.0 < m < 1e-9:
+            # An exact tie (m == 0) is decisive when both sides of the comparison are the same float values however they are
+            # computed (menu thresholds: ratio 1.0 = the maximum itself, p = 0.5 from a statistic that is exactly 0, equal
+            # p+s on all-equal streams).  For thresholds placed ON an attained statistic (FRAGILE) the tie exists only under
+            # the model's operation order -- a rewrite that changes the last bit of an intermediate square root moves the
+            # implementation off the tie while the documented test still holds -- so there a tie is thin as well.
+            if (io[2:4] == mo[2:4]) and (0.0 < m < 1e-9 or (m == 0.0 and (kind, tuple(cfg)) in FRAGILE)):
                 return ("thin", k)
             what = ("drift_state" if io[0] != mo[0] else "retraining_recs" if io[1] != mo[1] else "counters")
             return ("diff", k, what)
@@ -362,6 +368,7 @@ def run(ctx):
             a, b = vals[pick[0]], vals[pick[1]]
             configs["eddm"].append((n, max(a, b), min(a, b)))
             configs["eddm"].append((n, 1.0, max(a, b)))
+            FRAGILE.update({("eddm", (n, max(a, b), min(a, b))), ("eddm", (n, 1.0, max(a, b)))})
         if 2 * n <= att_L:
             fr = attained("stepd", n, att_L, rng)
             vals = sorted((v for v in fr if 0.3 < v < 3.5), key=lambda v: -fr[v])[:12]
@@ -373,6 +380,7 @@ def run(ctx):
                 configs["stepd"].append((n, pa, pb))
                 configs["stepd"].append((n, pa, pa))
                 configs["stepd"].append((n, pb, pa))      # warning stricter than drift
+                FRAGILE.update({("stepd", (n, pa, pb)), ("stepd", (n, pa, pa)), ("stepd", (n, pb, pa))})
     ctx.extra["configurations"] = {k: len(v) for k, v in configs.items()}
 
     boundary = {}
